@@ -400,6 +400,24 @@ def error_table(facts, R):
         R.check(nv[0] == "bin" and nv[1] == "Eq" and render(nv[2]).endswith("header.notify") and const_val(nv[3]) == 1, "response-count", rb.path, "Reject.notify = (header.notify == 1)",
                 "notify flag of the reject is %s" % render(nv), span)
     R.check(sorted(x for x in got if x) == ["format", "lookup", "utf8", "version"], "error-code-table", rb.path, "exactly the four reject rows", "rows found: %s" % got, rb.span, "version, utf8, format, lookup")
+    # body-format gate of the built-in decoders: an unacceptable body format is answered with InvalidBody
+    # (an undecodable body is an Err(RepeError) that dispatch maps through to_error_code, checked above)
+    n_dec = 0
+    for b in facts.bodies.values():
+        if not (b.path.startswith("server::decode_") and "_param" in b.path) or "{closure" in b.path:
+            continue
+        bs = Sym(b)
+        codes = set()
+        for i, t in b.calls():
+            if t["callee"]["name"].startswith("create_error_response") and len(t["args"]) >= 2:
+                c = bs.op(t["args"][1])
+                codes.add(c[2] if c[0] == "agg" else render(c))
+        if not codes:
+            continue
+        n_dec += 1
+        R.check(codes == {"InvalidBody"}, "error-code-table", b.path, "unacceptable body format -> InvalidBody",
+                "%s answers a body-format mismatch with %s (specified: InvalidBody)" % (b.path, sorted(codes)), b.span, "InvalidBody")
+    R.note("body-format decoders with an error reply: %d" % n_dec)
     # Dispatch row
     for i, j, st in rb.assigns():
         rv = st["rv"]
